@@ -538,16 +538,50 @@ func (d *docModel) genPathCall(rt *rapid.T) sim.Call {
 // handle calls ---------------------------------------------------------------------------------
 
 type hcall struct {
-	K    string   `json:"k"` // "hcall"
-	H    int      `json:"h"`
-	Call sim.Call `json:"call"`
-	Keep bool     `json:"keep"` // keep the returned document as a new handle
-	H2   int      `json:"h2"`   // Equal: other handle
+	K    string     `json:"k"` // "hcall"
+	H    int        `json:"h"`
+	Call sim.Call   `json:"call"`
+	Keep bool       `json:"keep"` // keep the returned document as a new handle
+	H2   int        `json:"h2"`   // Equal: other handle
+	Nav  []sim.Step `json:"nav,omitempty"` // obtain a handle to the container at this path (from the root) and keep it
 }
 
-func (h hcall) String() string { return fmt.Sprintf("h%d.%s keep=%v", h.H, h.Call, h.Keep) }
+func (h hcall) String() string {
+	if h.Nav != nil {
+		return "keep-handle-to " + pathString(h.Nav)
+	}
+	return fmt.Sprintf("h%d.%s keep=%v", h.H, h.Call, h.Keep)
+}
 
 func (d *docModel) genHandleCall(rt *rapid.T) hcall {
+	if cs := d.containers(); len(cs) > 1 && len(d.handles) < 12 && rapid.IntRange(0, 3).Draw(rt, "deepnav") == 0 {
+		// a handle to a (possibly deeply nested) container: later calls go through it after an
+		// ancestor was deleted or replaced
+		deep := cs[1:]
+		sort.SliceStable(deep, func(i, j int) bool { return deep[i].depth > deep[j].depth })
+		pick := rapid.IntRange(0, len(deep)-1).Draw(rt, "deepwhich")
+		if rapid.Bool().Draw(rt, "deepest") {
+			pick = pick % (1 + len(deep)/3)
+		}
+		return hcall{K: "hcall", Nav: deep[pick].path}
+	}
+	// prefer handles whose node sits below a deleted ancestor, if there are any
+	var below []int
+	for i, h := range d.handles {
+		if h.n.garbage() && !h.n.dead {
+			below = append(below, i)
+		}
+	}
+	if len(below) > 0 && rapid.Bool().Draw(rt, "usebelow") {
+		hi := below[rapid.IntRange(0, len(below)-1).Draw(rt, "belowwhich")]
+		n := d.handles[hi].n
+		var keys []string
+		for k := range n.obj {
+			keys = append(keys, k)
+		}
+		sort.Strings(keys)
+		return hcall{K: "hcall", H: hi, Call: genCallOn(rt, n.kind, keys, len(n.arr), d.allPaths())}
+	}
 	hi := rapid.IntRange(0, len(d.handles)-1).Draw(rt, "handle")
 	n := d.handles[hi].n
 	var keys []string
@@ -567,7 +601,32 @@ func (d *docModel) genHandleCall(rt *rapid.T) hcall {
 // execHandleCall runs a call through a stored handle, checks it like any other call and keeps
 // returned child documents as new handles.
 func (d *docModel) execHandleCall(m *c03Machine, hc hcall) error {
+	if hc.Nav != nil {
+		n := d.resolve(hc.Nav)
+		var doc orda.DocumentInTx
+		var nerr error
+		var pan interface{}
+		func() {
+			defer func() { pan = recover() }()
+			doc, nerr = sim.Navigate(d.handles[0].doc, hc.Nav)
+		}()
+		if pan != nil {
+			return fmt.Errorf("navigating to %s panicked: %v", pathString(hc.Nav), pan)
+		}
+		if (n == nil) != (nerr != nil) {
+			return fmt.Errorf("navigating to %s: error=%v, the plain structure says exists=%v", pathString(hc.Nav), nerr, n != nil)
+		}
+		if n != nil {
+			d.handles = append(d.handles, docHandle{doc: doc.(orda.Document), n: n})
+			m.col.Label("handle-kept")
+			m.col.Label("deep-handle-kept")
+		}
+		return nil
+	}
 	h := d.handles[hc.H]
+	if h.n.garbage() && !h.n.dead && sim.Mutating(hc.Call.M) {
+		m.col.Label("mutation-through-handle-below-deleted-ancestor")
+	}
 	c := hc.Call
 	if c.M == "Equal" {
 		o := d.handles[hc.H2]
